@@ -15,4 +15,11 @@ PROPS = {
         "note": "hash seed pinned via overlay export file; xxh3 and the Go runtime are trusted; keys are synthetic",
         "design_ref": "§4 C18",
     },
+    "C01": {
+        "level": "exploration",
+        "technique": "exhaustive enumeration of write histories (sessions x payload classes x encoders x levels, <=2 deviations) on the real GPDir/GPFile code, read back by fresh readers after every Close",
+        "text": "All histories of 1-3 (thorough: 4) block writes to one or two days, in every split into open/write/close sessions, for every encoder and level, where up to two blocks deviate from the default payload into one of 12 payload classes chosen around the code's thresholds (empty, 1 B, compressible/incompressible below, at and above the 4 KiB write buffer, 70 kB) and extreme traffic/counter summaries, are written through the real GPDir and read back after every Close by three fresh readers (plain name, name+suffix, read-all pool): block count, timestamps, all eight columns byte-for-byte, per-block and per-day summaries, and the summaries decoded from the directory suffix. Payloads are classes, not all byte strings.",
+        "note": "payload alphabet of fixed byte strings; tmpfs; native/cgo difference is C02/C07's subject",
+        "design_ref": "§4 C01",
+    },
 }
